@@ -361,6 +361,8 @@ class Interp:
             return TYPES["str"]
         if isinstance(v, bytes):
             return TYPES["bytes"]
+        if isinstance(v, SymPySet):
+            return TYPES["set"]
         if isinstance(v, list):
             return TYPES["list"]
         if isinstance(v, tuple):
